@@ -106,6 +106,7 @@ SPEC = {
              "observed). A quarter of the valueless variants are also copied, copy-/move-assigned from, compared and "
              "visited together with a second variant. "
              "Every program is non-trivial; distinct = distinct hash of its operation/argument sequence."),
+    "rule_extra": ' Round 2: the shared_ptr program also builds two handles with the same stored pointer and different owners (std aliasing constructors) and copy-assigns one to the other.',
     "assumptions": ASSUME_COMMON + [
         "libstdc++'s std::string_view / unique_ptr / shared_ptr / function / variant define the expected behaviour; span is judged against an index-checked slice model (C++17 has no std::span)",
         "only the interface nostd offers is exercised (string_view has find(char) only; span has no subspan/first/last, sub-views are built from pointer+count); out-of-contract calls are never generated",
